@@ -247,6 +247,7 @@ _k("i6_add_stream_shared_n1_b3", MQ_S, "I", ["C10"], "quick", "N=1, SHARED paren
 _k("i6_add_stream_list_race_n2", MQ_S, "I", ["C10", "C03", "C16", "C11"], "quick", "N=2; another consumer completes an add_stream between my list load and my compare-exchange", label="proved-for-stated-bounds (1 env action)")
 for (nm, tier) in (("i3_send_single_addstream_n1_b2", "quick"), ("i3_send_single_addstream_n2_b2", "thorough")):
     _k(nm, MQ_S, "I", ["C03", "C01", "C06", "C10"], tier, "env = another consumer adds a stream (list replaced) + consumers advancing; 2 env actions", label="proved-for-stated-bounds (<= 2 env actions)")
+_k("i4_recv_disconnect_mpmc_n2", MQ_S, "I", ["C07", "C01"], "thorough", "N=2, sole consumer; env = the last sender's final send and its drop, both possibly at ONE observation point", label="proved-for-stated-bounds (<= 2 env actions)")
 _k("i13_drop_send_race_bcast_n2", MQ_S, "I", ["C07", "C08", "C14"], "quick", "writer count 1..3; another sender dropped at any point in between", label="proved-for-stated-bounds (<= 1 env action)")
 _k("i13_drop_send_race_mpmc_n2", MQ_S, "I", ["C07", "C08"], "thorough", "writer count 1..3; another sender dropped at any point in between", label="proved-for-stated-bounds (<= 1 env action)")
 _k("i12_remove_consumer_n2", MQ_S, "I", ["C11", "C12"], "quick", "consumer count 1..3; a sibling handle dropped at any point in between", label="proved-for-stated-bounds (<= 1 env action)")
